@@ -16,7 +16,7 @@ WORK = os.path.join(VERIF, "work")
 BIN = os.path.join(WORK, "bin")
 COQ = os.path.join(VERIF, "coq")
 FAMILIES = ["main", "walk", "emph", "stream", "filter", "recog", "misc"]
-NOT_IN_PROJECT = {"Extract.v", "ExtractW.v"}
+NOT_IN_PROJECT = {"Extract.v", "ExtractW.v", "ExtractR.v", "ExtractF.v"}
 
 GOENV = dict(os.environ, GOFLAGS="-mod=mod", GOPROXY="off", GOSUMDB="off", GOTOOLCHAIN="local",
              GOCACHE=os.environ.get("GOCACHE", os.path.join(WORK, "gocache")))
@@ -123,7 +123,7 @@ def prepare(force=False, verbose=False):
         spath = os.path.join(WORK, "build_status.json")
         if not force and os.path.exists(spath):
             st = json.load(open(spath))
-            if st.get("key") == key and all(os.path.exists(os.path.join(BIN, b)) for b in ("harness", "drv", "drvwalk")):
+            if st.get("key") == key and all(os.path.exists(os.path.join(BIN, b)) for b in ("harness", "drv", "drvwalk", "drvrecog", "drvfilter")):
                 st["cached"] = True
                 return st
         t0 = time.time()
@@ -191,6 +191,21 @@ def prepare(force=False, verbose=False):
         else:
             status["driver_walk"] = 1
             status["errors"].append("walk model does not compile: " + ",".join(status["coq"]["walk"]["missing"]))
+        # drivers for the recognizer and filter families
+        for fam, ext, ml, exe in (("recog", "ExtractR.v", "recogmodel", "drvrecog"), ("filter", "ExtractF.v", "filtermodel", "drvfilter")):
+            xdir = os.path.join(WORK, "ocaml_" + fam)
+            os.makedirs(xdir, exist_ok=True)
+            rc = 1
+            if not status["coq"][fam]["missing"]:
+                rc, out = sh("timeout 600 coqc -Q %s '' %s" % (os.path.join(COQ, fam), os.path.join(COQ, fam, ext)), cwd=xdir)
+                if rc == 0:
+                    shutil.copy(os.path.join(VERIF, "ocaml", exe + ".ml"), os.path.join(xdir, exe + ".ml"))
+                    rc, out = sh("ocamlfind ocamlopt -O3 -w -a %s.mli %s.ml %s.ml -o %s/%s" % (ml, ml, exe, BIN, exe), cwd=xdir)
+                if rc != 0:
+                    status["errors"].append("%s extraction/driver build failed: %s" % (fam, out[-1500:]))
+            else:
+                status["errors"].append("%s model does not compile: %s" % (fam, ",".join(status["coq"][fam]["missing"])))
+            status["driver_" + fam] = rc
         status["build_s"] = round(time.time() - t0, 1)
         json.dump(status, open(spath, "w"), indent=1)
         return status
